@@ -141,6 +141,11 @@ def run(item):
             kw.update(dimension_reduction_heuristic=heur, tol_dimension_reduction=opts.get("tol", 1e-4),
                       eig_regularization=opts.get("reg", 1e-3))
         buf = io.StringIO()
+        del pepsolve.PROTO[:]
+        pepsolve.PROTO_HEAD[0] = None
+        pepsolve.CURRENT_PEP[0] = b.pep
+        pepsolve._ev("call", heur=heur, mode=kw["return_primal_or_dual"],
+                     n=0 if heur == "none" else 1 if heur == "trace" else int(heur[6:]))
         try:
             with contextlib.redirect_stdout(buf):
                 ret = b.pep.solve(**kw)
@@ -197,5 +202,8 @@ def run(item):
         except Exception:
             obs["objsense"] = "n/a"
         obs["printed"] = 1 if buf.getvalue().strip() else 0
+        pepsolve._ev("return", ret="none" if ret is None else "num")
+        obs["proto"] = dict(model=pepsolve.PROTO_HEAD[0] or dict(metrics=0, pepcons=0, peplmis=0, leafs=[], fwc=[], parts=[]),
+                            ev=list(pepsolve.PROTO))
         out["solves"].append(obs)
     return out
